@@ -367,6 +367,94 @@ example : (run Trans.calcOffsetsBody (fun x => if x = "k.consumer.QueryWatermark
     if x = "maxInitialPartitionLagOffset" then 100 else if x = "k.recoveryConsumerEnabled" then 1 else
     if x = "k.offsetForPartition#0" then 5 else if x = "tp.Partition" then 3 else 0)).calls.getLast? =
     some ("k.recoveryConsumer.RequestRecovery", [3, 5, 900]) := by decide
+
+/-- what one iteration of the partition loop reads: the partition id and what the client answers for it -/
+def bindPart (σ : Env) (pi : PartIn) : Env :=
+  upd (upd (upd (upd (upd σ "tp.Partition" pi.p) "k.offsetForPartition#0" (pi.committed.getD 0))
+    "k.consumer.QueryWatermarkOffsets#0" pi.low) "k.consumer.QueryWatermarkOffsets#1" pi.high)
+    "k.consumer.QueryWatermarkOffsets#2" (if pi.werr then 1 else 0)
+
+/-- `for i, tp := range assignedPartitions { body }` as Go runs it: the body once per partition, in order; a `return` inside
+the body ends the function (`none`: nothing is assigned); otherwise the partition gets the offset left in `tp.Offset`; the
+`RequestRecovery` calls made on the way are collected -/
+def rangeParts (body : S) : List PartIn → Env → Option (List (Int × Int)) × List (List Int)
+  | [], _ => (some [], [])
+  | pi :: rest, σ =>
+    let r := run body (bindPart σ pi)
+    let reqs := (r.calls.filter (fun c => c.1 == "k.recoveryConsumer.RequestRecovery")).map (·.2)
+    if r.ret.isSome || r.stuck then (none, reqs)
+    else
+      let k := rangeParts body rest r.env
+      (k.1.map (fun l => (pi.p, r.env "tp.Offset") :: l), reqs ++ k.2)
+
+/-- the requests the model's walk files before trimming, in order -/
+def walkReqs (c : Cfg) : List PartIn → List (List Int)
+  | [] => []
+  | pi :: rest =>
+    if pi.werr then []
+    else (match (startOffset c.maxLag c.recEnabled pi.committed pi.high).2 with
+          | none => []
+          | some (f, t) => [[pi.p, f, t]]) ++ walkReqs c rest
+
+theorem startOffset_getD (maxLag : Int) (rec : Bool) (c : Option Int) (high : Int) :
+    startOffset maxLag rec (some (c.getD 0)) high = startOffset maxLag rec c high := by
+  cases c <;> simp [startOffset, storedOffset, offsetInvalid]
+
+theorem calcOffsetsBody_frame (σ : Env) (x : String)
+    (hx : x ∉ ["partitionOffset", "low", "high", "err", "offsetWithCappedLag", "tp.Offset", "partitions[i]"]) :
+    (run Trans.calcOffsetsBody σ).env x = σ x := by
+  simp only [List.mem_cons, List.not_mem_nil, or_false, not_or] at hx
+  obtain ⟨a1, a2, a3, a4, a5, a6, a7⟩ := hx
+  by_cases h0 : σ "k.consumer.QueryWatermarkOffsets#2" = 0 <;>
+  by_cases h1 : σ "k.offsetForPartition#0" = -1001 <;>
+  by_cases h2 : wrap64 (σ "k.consumer.QueryWatermarkOffsets#1" - (if σ "k.offsetForPartition#0" = -1001 then 0 else σ "k.offsetForPartition#0")) > σ "maxInitialPartitionLagOffset" <;>
+  by_cases h3 : σ "maxInitialPartitionLagOffset" > σ "k.consumer.QueryWatermarkOffsets#1" <;>
+  by_cases h4 : σ "k.recoveryConsumerEnabled" = 0 <;>
+  simp [h1] at h2 <;>
+  minigo_simp [Trans.calcOffsetsBody, h0, h1, h2, h3, h4, a1, a2, a3, a4, a5, a6, a7]
+
+theorem walk_fst_indep (c : Cfg) (parts : List PartIn) : ∀ tr tr', (walk c tr parts).1 = (walk c tr' parts).1 := by
+  induction parts with
+  | nil => intro tr tr'; rfl
+  | cons pi rest ih =>
+    intro tr tr'
+    simp only [walk]
+    split
+    · rfl
+    · simp only []; rw [ih (fileReq c tr pi).1 (fileReq c tr' pi).1]
+
+/-- **the partition loop of calculateAssignmentOffsets = the model's `walk`**: for every list of assigned partitions with
+whatever the client answers for each, the offsets assigned (or the abort on a failing watermark query) and the recovery
+requests filed on the way, in order, are the model's -/
+theorem translated_calcOffsets_loop (c : Cfg) (tr : Tracker.Store) (parts : List PartIn) : ∀ σ : Env,
+    σ "maxInitialPartitionLagOffset" = c.maxLag → (σ "k.recoveryConsumerEnabled" != 0) = c.recEnabled →
+    rangeParts Trans.calcOffsetsBody parts σ = ((walk c tr parts).1, walkReqs c parts) := by
+  induction parts generalizing tr with
+  | nil => intro σ _ _; rfl
+  | cons pi rest ih =>
+    intro σ hm hr
+    have b1 : bindPart σ pi "maxInitialPartitionLagOffset" = c.maxLag := by simp [bindPart, hm]
+    have b2 : (bindPart σ pi "k.recoveryConsumerEnabled" != 0) = c.recEnabled := by simp [bindPart]; simpa using hr
+    have b3 : bindPart σ pi "k.offsetForPartition#0" = pi.committed.getD 0 := by simp [bindPart]
+    have b4 : bindPart σ pi "k.consumer.QueryWatermarkOffsets#1" = pi.high := by simp [bindPart]
+    have b5 : bindPart σ pi "tp.Partition" = pi.p := by simp [bindPart]
+    have b6 : bindPart σ pi "k.consumer.QueryWatermarkOffsets#2" = if pi.werr then 1 else 0 := by simp [bindPart]
+    by_cases hw : pi.werr = true
+    · have he : bindPart σ pi "k.consumer.QueryWatermarkOffsets#2" ≠ 0 := by rw [b6]; simp [hw]
+      obtain ⟨e1, e2⟩ := translated_calcOffsetsBody_error (bindPart σ pi) he
+      simp [rangeParts, walk, walkReqs, hw, e1, e2]
+    · have he : bindPart σ pi "k.consumer.QueryWatermarkOffsets#2" = 0 := by rw [b6]; simp [hw]
+      obtain ⟨o1, o2, o3, o4⟩ := translated_calcOffsetsBody (bindPart σ pi) he
+      rw [b1, b2, b3, b4, startOffset_getD] at o1 o4
+      rw [b5] at o4
+      have f1 := calcOffsetsBody_frame (bindPart σ pi) "maxInitialPartitionLagOffset" (by decide)
+      have f2 := calcOffsetsBody_frame (bindPart σ pi) "k.recoveryConsumerEnabled" (by decide)
+      have ih' := ih (fileReq c tr pi).1 (run Trans.calcOffsetsBody (bindPart σ pi)).env (by rw [f1, b1]) (by rw [f2]; exact b2)
+      simp only [rangeParts, walk, walkReqs, hw, o2, o3, ih', o1, o4]
+      cases hso : (startOffset c.maxLag c.recEnabled pi.committed pi.high).2 with
+      | none => simp
+      | some ft => obtain ⟨f, t⟩ := ft; simp
+
 end Translated
 
 theorem closure_unchanged : GeneratedClo.C06 = ExpectedClo.C06 := by rfl
